@@ -115,6 +115,32 @@ fn check_list(l: &mut Law, reference: &[String], p: &Pointer) {
                 Component::Root => None,
                 Component::Token(t) => Some(t.decoded().into_owned()),
             };
+            // `nth(k)` consumes: k + 1 items when there are that many, everything otherwise — so after `nth(k)` the iterator is
+            // where k + 1 calls of `next` would have left it, in particular exhausted when `k >= remaining` (and `skip`,
+            // `step_by`, `advance_by` are built on it)
+            for start in 0..=n.min(2) {
+                for k in [0usize, 1, n.saturating_sub(start), n.saturating_sub(start) + 1, n + 3, usize::MAX] {
+                    let mut a = p.tokens();
+                    let mut b = p.tokens();
+                    for _ in 0..start { a.next(); b.next(); }
+                    let ra = guard(|| a.nth(k).map(dec_of));
+                    let mut rb = None;
+                    for _ in 0..=k.min(n + 4) { rb = b.next(); if rb.is_none() { break; } }
+                    let rb = if k > n + 4 { None } else { rb.map(dec_of) };
+                    l.ck(ra == Some(rb), "tokens_nth_differs_from_repeated_next");
+                    let rest_a: Vec<String> = a.map(dec_of).collect();
+                    let rest_b: Vec<String> = b.map(dec_of).collect();
+                    l.ck(rest_a == rest_b, "tokens_after_nth_not_where_repeated_next_leaves_it");
+                    let mut c = p.components();
+                    let mut d = p.components();
+                    let rc = guard(|| c.nth(k).map(comp_dec));
+                    let mut rd = None;
+                    for _ in 0..=k.min(n + 5) { rd = d.next(); if rd.is_none() { break; } }
+                    let rd = if k > n + 5 { None } else { rd.map(comp_dec) };
+                    l.ck(rc == Some(rd), "components_nth_differs_from_repeated_next");
+                    l.ck(c.map(comp_dec).collect::<Vec<_>>() == d.map(comp_dec).collect::<Vec<_>>(), "components_after_nth_not_where_repeated_next_leaves_it");
+                }
+            }
             // exhausted iterators stay exhausted (a second and third `next` after `None`), and are empty for every adaptor
             {
                 let mut it = p.tokens();
